@@ -225,12 +225,9 @@ def run(ctx):
     ck.ob("C02-s1", "-", "transaction-discipline(C19)-holds", not bad, detail=None if not bad else str(bad[0])[:200])
     # ---------------- s2: input_pressed_keys never lists a key that is physically up (the hand-over test and
     # is_supported both read it): every acted-on release forgets its key on every path (C01-R2)
-    from ..report import Check
-    from ..ctx import Ctx
-    from . import c01
-    sub = Check("C01", quiet=True)
-    c01.run(Ctx(ctx.F, sub, ctx.tier))
-    stale = [v["key"] for v in sub.violations if "/C01-R2/" in v["key"]]
-    ck.ob("C02-s2", "-", "input_pressed_keys-forgets-every-released-key(C01-R2)", not stale, detail=None if not stale else stale[0][:200])
+    from .. import premises
+    if not getattr(ctx, "no_premises", False):
+        stale = [k for k in premises.own_violations(ctx, "C01") if "/C01-R2/" in k]
+        ck.ob("C02-s2", "-", "input_pressed_keys-forgets-every-released-key(C01-R2)", not stale, detail=None if not stale else stale[0][:200])
     ck.explanation = ("release cone %s; consumption sweep tables %d; may-add-to-pass_through %s; remove_mapping rows %d."
                       % ([x[len(MOD):] for x in cone], len(seen_tables), sorted(x[len(MOD):] for x in mayadd), len(R.rows)))
